@@ -4,6 +4,8 @@ From TxVerif Require Import Lib.ListSet Spec.C15 Model.DescUpload.
 Import ListNotations.
 Open Scope N_scope.
 
+Definition n_dones_of (tr : list rec) : nat := length (dones (flat_map r_evs tr)).
+
 Definition cfg0 (aw : bool) : cfg :=
   {| c_await := aw; c_own := 1; c_early := false; c_shared := false; c_progress := true |}.
 
@@ -16,25 +18,27 @@ Lemma event_before_reply_refuted :
   exists c ops, wf ops = true /\ foreign_uploaded_shared_dir c ops = false /\ oracle c ops (run c ops) = false.
 Proof. exists (cfg0 false), [Ev KUpload 1 1; Reply; Ev KUploaded 1 1]. vm_compute. auto. Qed.
 
-Lemma await_all_retry_refuted :
-  exists c ops, wf ops = true /\ foreign_uploaded_shared_dir c ops = false /\ own_event_before_reply c ops = false
-    /\ oracle c ops (run c ops) = false.
-Proof.
-  exists (cfg0 true), [Reply; Ev KUpload 1 1; Ev KUpload 1 2; Ev KFailed 1 1; Ev KUpload 1 1; Ev KUploaded 1 1].
-  vm_compute. auto.
-Qed.
+(* ---- regression anchors: the witnesses of the repaired findings C15-F3 (e8b566b) and C15-F4 (3df3186) ---- *)
+Lemma await_all_retry_now_accepted :
+  let ops := [Reply; Ev KUpload 1 1; Ev KUpload 1 2; Ev KFailed 1 1; Ev KUpload 1 1; Ev KUploaded 1 1] in
+  oracle (cfg0 true) ops (run (cfg0 true) ops) = true
+  /\ n_dones_of (run (cfg0 true) ops) = 0%nat          (* D2 is still outstanding: no completion *)
+  /\ oracle (cfg0 true) (ops ++ [Ev KFailed 1 2]) (run (cfg0 true) (ops ++ [Ev KFailed 1 2])) = true
+  /\ n_dones_of (run (cfg0 true) (ops ++ [Ev KFailed 1 2])) = 1%nat.
+Proof. vm_compute. auto. Qed.
 
-Lemma rejected_keeps_listener_refuted :
-  exists c ops, wf ops = true /\ foreign_uploaded_shared_dir c ops = false /\ own_event_before_reply c ops = false
-    /\ await_all_dir_failed_and_uploaded c ops = false /\ oracle c ops (run c ops) = false.
-Proof. exists (cfg0 false), [Reject]. vm_compute. auto. Qed.
+Lemma rejected_now_accepted :
+  oracle (cfg0 false) [Reject] (run (cfg0 false) [Reject]) = true
+  /\ unsub_all (cfg0 false) false (run (cfg0 false) [Reject]) = true
+  /\ map r_ncb (run (cfg0 false) [Reject]) = [1; 0].
+Proof. vm_compute. auto. Qed.
 
 (* ====================================================================================== *)
-(* The model meets the oracle on every history outside the four finding classes.           *)
+(* The model meets the oracle on every history outside the two open finding classes.           *)
 (* ====================================================================================== *)
 
 Definition bad (c : cfg) (s : sst) (o : op) : bool :=
-  bad_a c s o || bad_d c s o || bad_e c s o || bad_f s o.
+  bad_a c s o || bad_d c s o.
 
 Lemma any_bad_or c b1 b2 s ops :
   any_bad c (fun s o => b1 s o || b2 s o) s ops = any_bad c b1 s ops || any_bad c b2 s ops.
@@ -45,7 +49,7 @@ Qed.
 
 Lemma any_bad_split c s ops :
   any_bad c (bad c) s ops =
-  any_bad c (bad_a c) s ops || any_bad c (bad_d c) s ops || any_bad c (bad_e c) s ops || any_bad c bad_f s ops.
+  any_bad c (bad_a c) s ops || any_bad c (bad_d c) s ops.
 Proof. unfold bad. now rewrite !any_bad_or. Qed.
 
 (* ---- facts about the set operations used by the spec ---- *)
@@ -109,7 +113,6 @@ Record Wait (c : cfg) (m : st) (s : sst) : Prop := {
   w_nd_a : NoDup (m_att m);
   w_nd_c : NoDup (m_conf m);
   w_nd_f : NoDup (m_fail m);
-  w_aw : c_await c = true -> incl (m_fail m) (m_att m) /\ (forall x, In x (m_fail m) -> ~ In x (sS s));
   w_cf : s_conf s = true ->
          incl (sS s) (sA s) /\ incl (sF s) (sA s) /\ s_dec s = None
          /\ okc (c_await c) (sA s) (sS s) (sF s) = false /\ failc (sA s) (sF s) = false;
@@ -292,7 +295,6 @@ Proof.
     + congruence.
     + eapply incl_tran; [eassumption | apply incl_sadd_r].
     + now apply NoDup_sadd.
-    + intros Ha. destruct (w_aw0 Ha). split; auto. eapply incl_tran; [eassumption | apply incl_sadd_r].
     + intros C. destruct (w_cf0 C) as (IS & IF & Hd & Ho & Hfl). destruct (Hund C) as (Ho' & Hfl').
       rewrite Hd, Ho', Hfl'. cbn. repeat split; auto; eapply incl_tran; try eassumption; apply incl_sadd_r.
 Qed.
@@ -357,45 +359,39 @@ Proof.
 Qed.
 
 Lemma step_uploaded c m s a d :
-  Inv c m s -> m_fired m = None -> is_own c a = true -> bad_e c s (Ev KUploaded a d) = false ->
+  Inv c m s -> m_fired m = None -> is_own c a = true ->
   step_goal c m s (Ev KUploaded a d).
 Proof.
-  intros HI Hf Hown Hbe. pose proof HI as (Hrep & Hnr & Hoos & HW). rewrite Hf in HW.
+  intros HI Hf Hown. pose proof HI as (Hrep & Hnr & Hoos & HW). rewrite Hf in HW.
   intros m' evs Hs. cbn [step] in Hs. unfold step_ev in Hs. rewrite (w_listen _ _ _ HW) in Hs. cbn [negb] in Hs.
-  unfold bad_e in Hbe. rewrite Hown in Hbe. cbn [andb] in Hbe.
   destruct (smem d (m_att m)) eqn:Hin.
   - (* a directory we attempted *)
     rewrite Hf in Hs.
     assert (Hd : In d (sA s)) by (rewrite <- (w_att _ _ _ HW); now apply smem_In).
     assert (Hcf : s_conf (spec_ev c s KUploaded d) = s_conf s).
     { cbn [spec_ev s_conf]. rewrite <- (w_att _ _ _ HW), Hin. apply andb_true_r. }
+    assert (ICS : incl (sadd d (m_conf m)) (sadd d (sS s))).
+    { intros x Hx. apply In_sadd in Hx as [->|Hx]; apply In_sadd; [now left | right; now apply (w_conf_S _ _ _ HW)]. }
     destruct (c_await c) eqn:Aw.
-    + destruct (w_aw _ _ _ HW Aw) as (IFA & Dis).
-      assert (HdF : ~ In d (m_fail m)).
-      { rewrite (w_fail _ _ _ HW). apply smem_false. cbn in Hbe. exact Hbe. }
-      assert (Dis' : forall x, In x (m_fail m) -> ~ In x (sadd d (m_conf m))).
-      { intros x Hx Hc. apply In_sadd in Hc as [->|Hc]; [auto|]. apply (Dis x Hx). now apply (w_conf_S _ _ _ HW). }
-      assert (ICA : incl (sadd d (m_conf m)) (m_att m)).
-      { intros x Hx. apply In_sadd in Hx as [->|Hx]; [now apply smem_In | now apply (w_conf_A _ _ _ HW)]. }
-      pose proof (count_cover (m_att m) (sadd d (m_conf m)) (m_fail m) (w_nd_a _ _ _ HW)
-                    (NoDup_sadd d _ (w_nd_c _ _ _ HW)) (w_nd_f _ _ _ HW) ICA IFA Dis') as CC.
-      destruct (nlen (m_fail m) + nlen (sadd d (m_conf m)) =? nlen (m_att m)) eqn:Cnt.
+    + destruct (ssub (m_att m) (sunion (m_fail m) (sadd d (m_conf m)))) eqn:Cov.
       * (* everything is settled *)
         eapply fire_goal; eauto using dones_prog, tidy_prog.
         cbn [spec_ev sA sS sF]. unfold okc. rewrite snonempty_sadd, Aw. cbn [negb orb andb].
-        apply covered_app. rewrite <- (w_att _ _ _ HW), <- (w_fail _ _ _ HW).
-        eapply incl_tran; [apply CC; reflexivity|].
-        intros x Hx. apply in_app_iff in Hx as [Hx|Hx]; apply in_app_iff; [now left|right].
-        apply In_sadd in Hx as [->|Hx]; apply In_sadd; [now left | right; now apply (w_conf_S _ _ _ HW)].
+        apply covered_spec. intros x Hx. rewrite <- (w_att _ _ _ HW) in Hx.
+        apply ssub_incl in Cov. apply Cov, In_sunion in Hx as [Hx|Hx].
+        -- right. now rewrite <- (w_fail _ _ _ HW).
+        -- left. now apply ICS.
       * (* still waiting *)
         inversion Hs; subst m' evs; clear Hs. cbn [spec_step]. rewrite Hown.
         rewrite dones_prog, (done_after_nil _ (w_done _ _ _ HW)).
-        assert (Hund : s_conf s = true ->
-                       okc true (sA s) (sadd d (sS s)) (sF s) = false).
+        assert (Hund : s_conf s = true -> okc true (sA s) (sadd d (sS s)) (sF s) = false).
         { intros C. unfold okc. cbn [negb orb]. rewrite snonempty_sadd. cbn [andb].
-          destruct (covered (sA s) (sadd d (sS s)) (sF s)) eqn:E; [|reflexivity].
-          apply covered_app in E. rewrite <- (w_conf_eq _ _ _ HW C), <- (w_att _ _ _ HW), <- (w_fail _ _ _ HW) in E.
-          apply CC in E. congruence. }
+          destruct (covered (sA s) (sadd d (sS s)) (sF s)) eqn:E; [|reflexivity]. exfalso.
+          assert (ssub (m_att m) (sunion (m_fail m) (sadd d (m_conf m))) = true); [|congruence].
+          apply ssub_incl. intros x Hx. rewrite (w_att _ _ _ HW) in Hx. apply In_sunion.
+          destruct (proj1 (covered_spec _ _ _) E x Hx) as [H|H].
+          - right. now rewrite (w_conf_eq _ _ _ HW C).
+          - left. now rewrite (w_fail _ _ _ HW). }
         split.
         -- unfold check_op, snap, unsub_ok, check_done. cbn [r_evs r_ncb r_inev spec_step]. rewrite Hown.
            rewrite dones_prog, tidy_prog, (done_after_nil _ (w_done _ _ _ HW)), (w_done _ _ _ HW).
@@ -406,11 +402,9 @@ Proof.
         -- unfold Inv. cbn [upd m_rep m_oos m_fired]. rewrite Hf. refine (conj _ (conj _ (conj _ _))); auto.
            destruct HW. constructor; cbn [upd spec_ev set_done m_att m_conf m_fail sA sS sF s_conf s_dec s_done
                                    m_listen m_unsub_pending m_upl_done m_created]; auto.
-           ++ intros x Hx. apply In_sadd in Hx as [->|Hx]; apply In_sadd; auto.
+           ++ intros x Hx. apply In_sadd in Hx as [->|Hx]; auto. now apply smem_In.
            ++ intros C. apply andb_true_iff in C as [C _]. now rewrite (w_conf_eq0 C).
            ++ now apply NoDup_sadd.
-           ++ intros _. split; [exact IFA|]. intros x Hx Hc. apply In_sadd in Hc as [->|Hc]; [auto|].
-              now apply (Dis x Hx).
            ++ intros C. apply andb_true_iff in C as [C _]. destruct (w_cf0 C) as (IS & IF & Hdc & Ho & Hfl).
               rewrite Hdc, Aw, (Hund C), Hfl. cbn. repeat split; auto.
               intros x Hx. apply In_sadd in Hx as [->|Hx]; auto.
@@ -430,24 +424,16 @@ Proof.
       destruct HW. constructor; cbn [spec_ev set_done sA sS sF s_conf s_dec s_done]; auto.
       * eapply incl_tran; [exact w_conf_S0 | apply incl_sadd_r].
       * rewrite <- w_att0, Hin, andb_false_r. discriminate.
-      * intros Aw. destruct (w_aw0 Aw) as (IFA & Dis). split; [exact IFA|].
-        intros x Hx Hc. apply In_sadd in Hc as [->|Hc]; [|now apply (Dis x Hx)].
-        rewrite Aw in Hbe. cbn in Hbe. apply smem_false in Hbe. apply Hbe. now rewrite <- w_fail0.
       * intros C. exfalso. rewrite <- w_att0, Hin, andb_false_r in C. discriminate.
 Qed.
 
 Lemma step_failed c m s a d :
   Inv c m s -> m_fired m = None -> is_own c a = true -> known c m = true ->
-  bad_e c s (Ev KFailed a d) = false ->
   step_goal c m s (Ev KFailed a d).
 Proof.
-  intros HI Hf Hown Hk Hbe. pose proof HI as (Hrep & Hnr & Hoos & HW). rewrite Hf in HW.
+  intros HI Hf Hown Hk. pose proof HI as (Hrep & Hnr & Hoos & HW). rewrite Hf in HW.
   intros m' evs Hs. cbn [step] in Hs. unfold step_ev in Hs. rewrite (w_listen _ _ _ HW) in Hs. cbn [negb] in Hs.
   pose proof Hown as Hown'. unfold is_own in Hown'. rewrite Hown', Hk, Hf in Hs. cbn [andb negb] in Hs.
-  unfold bad_e in Hbe. rewrite Hown in Hbe. cbn [andb] in Hbe.
-  assert (HbeA : c_await c = true -> In d (sA s) /\ ~ In d (sS s)).
-  { intros Aw. rewrite Aw in Hbe. cbn in Hbe. apply orb_false_iff in Hbe as [H1 H2].
-    apply negb_false_iff, smem_In in H1. apply smem_false in H2. auto. }
   assert (IFS : incl (sadd d (m_fail m)) (sadd d (sF s))) by (rewrite (w_fail _ _ _ HW); apply incl_refl).
   destruct (sseteq (sadd d (m_fail m)) (m_att m)) eqn:Eall.
   - (* every attempted upload has failed *)
@@ -482,7 +468,8 @@ Proof.
           assert (NSm : snonempty (m_conf m) = true) by (now rewrite (w_conf_eq _ _ _ HW C)).
           rewrite Aw, NSm in Edone. cbn [andb] in Edone.
           assert (sseteq (sunion (sadd d (m_fail m)) (m_conf m)) (m_att m) = true); [|congruence].
-          apply sseteq_spec. destruct (w_aw _ _ _ HW Aw) as (IFA & _). split.
+          assert (IFA : incl (m_fail m) (m_att m)) by (rewrite (w_att _ _ _ HW), (w_fail _ _ _ HW); exact IF).
+          apply sseteq_spec. split.
           + intros x Hx. apply In_sunion in Hx as [Hx|Hx]; [|now apply (w_conf_A _ _ _ HW)].
             apply In_sadd in Hx as [->|Hx]; [now rewrite (w_att _ _ _ HW) | now apply IFA].
           + intros x Hx. rewrite (w_att _ _ _ HW) in Hx. apply In_sunion.
@@ -508,9 +495,6 @@ Proof.
         -- congruence.
         -- intros C. apply andb_true_iff in C as [C _]. auto.
         -- now apply NoDup_sadd.
-        -- intros Aw. destruct (w_aw0 Aw) as (IFA & Dis). destruct (HbeA Aw) as (HdA & HdS). split.
-           ++ intros x Hx. apply In_sadd in Hx as [->|Hx]; [now rewrite w_att0 | now apply IFA].
-           ++ intros x Hx. apply In_sadd in Hx as [->|Hx]; [exact HdS | now apply Dis].
         -- intros C. destruct (Hund C) as (Ho & Hfl). apply andb_true_iff in C as [C HdA]. apply smem_In in HdA.
            destruct (w_cf0 C) as (IS & IF & Hdc & _). rewrite Hdc, Ho, Hfl. cbn. repeat split; auto.
            intros x Hx. apply In_sadd in Hx as [->|Hx]; auto.
@@ -574,10 +558,9 @@ Proof. reflexivity. Qed.
 Definition answers (ops : list op) : nat := length (filter is_answer ops).
 
 Lemma step_any c m s o :
-  Inv c m s -> bad c s o = false -> (is_answer o = true -> s_rep s = None) -> step_goal c m s o.
+  Inv c m s -> bad c s o = false -> (is_answer o = true -> s_rep s = None) -> o <> Reject -> step_goal c m s o.
 Proof.
-  intros HI Hb Hans. unfold bad in Hb.
-  apply orb_false_iff in Hb as [Hb Hf4]. apply orb_false_iff in Hb as [Hb He]. apply orb_false_iff in Hb as [Ha Hd].
+  intros HI Hb Hans Hnr. unfold bad in Hb. apply orb_false_iff in Hb as [Ha Hd].
   destruct o as [k a d| |].
   - destruct (m_fired m) as [o|] eqn:Hf; [now apply (step_ev_fired _ _ _ _ _ _ o)|].
     destruct (is_own c a) eqn:Hown; [|now apply step_ev_foreign].
@@ -587,7 +570,53 @@ Proof.
       destruct (c_early c); [reflexivity|]. cbn in Hd. apply negb_false_iff in Hd. exact Hd. }
     destruct k; [now apply step_upload | now apply step_uploaded | now apply step_failed].
   - apply step_reply; auto.
-  - discriminate.
+  - congruence.
+Qed.
+
+(* ---- a rejected creating command: creation fails at once and the listener is removed (fix 3df3186);
+        afterwards nothing can happen any more ---- *)
+Definition Dead (m : st) (s : sst) : Prop :=
+  m_rep m = Some false /\ s_rep s = Some false /\ m_listen m = false /\ s_done s = true.
+
+Definition InvD (c : cfg) (m : st) (s : sst) : Prop := Inv c m s \/ Dead m s.
+
+Lemma step_reject c m s m' evs :
+  Inv c m s -> s_rep s = None -> step c m Reject = (m', evs) ->
+  check_op c s Reject (snap c m' evs) = true /\
+  Dead m' (set_done (spec_step c s Reject) (done_after s (dones evs))).
+Proof.
+  intros HI Hnone Hs. pose proof HI as (Hrep & Hnr & Hoos & HW).
+  assert (Hr : m_rep m = None) by congruence.
+  cbn [step] in Hs. rewrite Hr in Hs.
+  assert (Hsd : s_done s = false).
+  { destruct (m_fired m) as [o|] eqn:Hf.
+    - destruct HW as [_ _ _ Fc Fcr _]. rewrite <- Fc, Fcr. unfold acc_m. now rewrite Hr.
+    - exact (w_done _ _ _ HW). }
+  assert (G : dones evs = [RRejected] /\ tidy evs = true /\ m_listen m' = false /\ m_rep m' = Some false).
+  { destruct (m_fired m) as [o|] eqn:Hf.
+    - destruct HW as [Fl _ _ _ _ _]. destruct (m_unsub_pending m); inversion Hs; subst; cbn; auto.
+    - destruct (c_shared c); inversion Hs; subst; cbn; auto. }
+  destruct G as (G1 & G2 & G3 & G4).
+  assert (Hda : done_after s (dones evs) = true) by (unfold done_after; rewrite G1; cbn; apply orb_true_r).
+  split.
+  - unfold check_op, snap, unsub_ok, check_done. cbn [r_evs r_ncb r_inev]. rewrite Hda, G1, G2, G3, Hsd.
+    cbn. destruct (c_shared c); reflexivity.
+  - unfold Dead. rewrite Hda. cbn [spec_step set_done set_rep s_rep s_done]. rewrite Hnone. auto.
+Qed.
+
+Lemma step_ev_dead c m s k a d m' evs :
+  Dead m s -> step c m (Ev k a d) = (m', evs) ->
+  check_op c s (Ev k a d) (snap c m' evs) = true /\
+  Dead m' (set_done (spec_step c s (Ev k a d)) (done_after s (dones evs))).
+Proof.
+  intros (D1 & D2 & D3 & D4) Hs. cbn [step] in Hs. rewrite (step_ev_deaf _ _ _ _ _ D3) in Hs.
+  inversion Hs; subst m' evs; clear Hs.
+  assert (Hda : done_after s (dones []) = true) by (unfold done_after; now rewrite D4).
+  split.
+  - unfold check_op, snap, unsub_ok, check_done. cbn [r_evs r_ncb r_inev dones flat_map]. rewrite D3, D4.
+    unfold done_after. rewrite D4. cbn [is_nil negb orb foreign_quiet tidy forallb andb N.eqb].
+    rewrite orb_true_r. destruct (c_shared c); reflexivity.
+  - unfold Dead. rewrite Hda. cbn [spec_step]. destruct (is_own c a); cbn; auto.
 Qed.
 
 Lemma inv_init c : Inv c m0 s0.
@@ -597,7 +626,7 @@ Proof.
 Qed.
 
 Lemma go_run c ops : forall m s,
-  Inv c m s -> any_bad c (bad c) s ops = false ->
+  InvD c m s -> any_bad c (bad c) s ops = false ->
   (answers ops + (match s_rep s with Some _ => 1 | None => 0 end) <= 1)%nat ->
   go c s ops (run_from c m ops) = true.
 Proof.
@@ -606,8 +635,19 @@ Proof.
   assert (Hans : is_answer o = true -> s_rep s = None).
   { intros A. unfold answers in Hw. cbn [filter] in Hw. rewrite A in Hw. cbn [length] in Hw.
     destruct (s_rep s); [lia | reflexivity]. }
-  pose proof (step_any _ _ _ _ HI Hb1 Hans) as G.
-  cbn [run_from]. destruct (step c m o) as [m' evs] eqn:Es. destruct (G _ _ Es) as (G1 & G2).
+  cbn [run_from]. destruct (step c m o) as [m' evs] eqn:Es.
+  assert (G : check_op c s o (snap c m' evs) = true /\
+              InvD c m' (set_done (spec_step c s o) (done_after s (dones evs)))).
+  { destruct HI as [HI|HD].
+    - destruct o as [k a d| |].
+      + destruct (step_any _ _ _ _ HI Hb1 Hans ltac:(discriminate) _ _ Es) as (G1 & G2). split; [exact G1 | now left].
+      + destruct (step_any _ _ _ _ HI Hb1 Hans ltac:(discriminate) _ _ Es) as (G1 & G2). split; [exact G1 | now left].
+      + destruct (step_reject _ _ _ _ _ HI (Hans eq_refl) Es) as (G1 & G2). split; [exact G1 | now right].
+    - destruct o as [k a d| |].
+      + destruct (step_ev_dead _ _ _ _ _ _ _ _ HD Es) as (G1 & G2). split; [exact G1 | now right].
+      + destruct HD as (_ & D2 & _). rewrite (Hans eq_refl) in D2. discriminate.
+      + destruct HD as (_ & D2 & _). rewrite (Hans eq_refl) in D2. discriminate. }
+  destruct G as (G1 & G2).
   cbn [go]. rewrite G1. cbn [andb r_evs snap].
   apply IH; auto.
   - (* the finding predicates do not look at s_done *)
@@ -627,21 +667,18 @@ Qed.
 Lemma start_ok c : check_start (start_rec c) = true.
 Proof. unfold check_start, start_rec, snap. cbn. destruct (c_shared c); reflexivity. Qed.
 
-(* THE main statement: on every history in the envelope and outside the four finding classes, the
-   model's trace satisfies the oracle *)
+(* THE main statement: on every history in the envelope (rejections included) and outside the two open
+   finding classes, the model's trace satisfies the oracle *)
 Lemma model_meets_oracle c ops :
   wf ops = true ->
   foreign_uploaded_shared_dir c ops = false ->
   own_event_before_reply c ops = false ->
-  await_all_dir_failed_and_uploaded c ops = false ->
-  create_rejected c ops = false ->
   oracle c ops (run c ops) = true.
 Proof.
-  intros Hwf Ha Hd He Hf. unfold oracle, run. rewrite start_ok. cbn [andb].
+  intros Hwf Ha Hd. unfold oracle, run. rewrite start_ok. cbn [andb].
   apply go_run.
-  - apply inv_init.
-  - rewrite any_bad_split. unfold foreign_uploaded_shared_dir, own_event_before_reply,
-      await_all_dir_failed_and_uploaded, create_rejected in *. now rewrite Ha, Hd, He, Hf.
+  - left. apply inv_init.
+  - rewrite any_bad_split. unfold foreign_uploaded_shared_dir, own_event_before_reply in *. now rewrite Ha, Hd.
   - unfold wf in Hwf. apply Nat.leb_le in Hwf. unfold answers. cbn. lia.
 Qed.
 
@@ -725,14 +762,8 @@ Proof.
     destruct (m_rep m) eqn:R.
     + inversion H; subst. cbn. split; [|lia]. intros Hc. rewrite R. discriminate.
     + assert (C : m_created m = false) by (destruct (m_created m); [exfalso; now apply HJ|reflexivity]).
-      destruct (m_unsub_pending m); [destruct (m_fired m) as [o|]|].
-      * destruct (finish_wait c (set_created (set_mrep m false)) o) as [s2 o2] eqn:E. inversion H; subst; clear H.
-        apply finish_wait_once in E. cbn [set_created set_mrep m_created m_rep] in E. destruct E as (E1 & E2).
-        split; [rewrite E2; discriminate|].
-        change (dones (ODone RRejected :: OSetEvents false :: o2)) with (RRejected :: dones o2).
-        cbn [length]. rewrite C. cbn [b2n] in *. lia.
-      * inversion H; subst. cbn. rewrite C. split; [discriminate | reflexivity].
-      * inversion H; subst. cbn. rewrite C. split; [discriminate | reflexivity].
+      destruct (m_fired m) as [o|]; [destruct (m_unsub_pending m)|]; [| |destruct (c_shared c)];
+        inversion H; subst; cbn; rewrite C; (split; [discriminate | reflexivity]).
 Qed.
 
 Lemma run_from_once c ops : forall m, J m ->
@@ -771,7 +802,7 @@ Record shape (c : cfg) (m : st) (o : op) (m' : st) (evs : list obs) : Prop := {
   sh_listen : m_listen m' = m_listen m \/ m_listen m' = false;
   sh_fired : m_fired m' = m_fired m \/
              (exists b, m_fired m' = Some b /\ m_listen m' = false /\ (b = true -> snonempty (m_conf m') = true));
-  sh_created : m_created m' = true -> m_created m = true \/ o = Reject \/ m_fired m' <> None;
+  sh_created : m_created m' = true -> m_created m = true \/ m_fired m' <> None;
   sh_ok : forall h, In (ROk h) (dones evs) -> m_rep m' = Some true /\ m_fired m' = Some true
 }.
 
@@ -833,13 +864,13 @@ Proof.
     { intros m2 o2 p E Hp Hfn. apply fire_shape in E. cbn [upd m_rep m_att m_conf m_created] in E.
       destruct E as (E1 & E2 & E3 & E4 & E5 & E6 & E7). constructor; cbn [rep_after]; auto.
       - right. exists true. rewrite E3. repeat split; auto. intros _. apply snonempty_sadd.
-      - intros Hcr. destruct (E6 Hcr); auto. right; right. congruence.
+      - intros Hcr. destruct (E6 Hcr); auto. right. congruence.
       - intros h Hh. rewrite dones_app, Hp in Hh. apply E7 in Hh as (Hh1 & Hh2). split; congruence. }
     destruct (m_fired m) eqn:Hf.
     + inversion H; subst; clear H. constructor; cbn [upd m_rep m_att m_conf m_listen m_fired m_created rep_after]; auto;
         try (intros h Hh; rewrite ?dones_prog in Hh; destruct Hh); try (right; eauto).
     + destruct (c_await c).
-      * destruct (_ =? _).
+      * destruct (ssub _ _).
         -- destruct (fire c _ true) as [s2 o2] eqn:E. inversion H; subst; clear H.
            apply Fire; auto using dones_prog.
         -- inversion H; subst; clear H. constructor; cbn [upd m_rep m_att m_conf m_listen m_fired m_created rep_after]; auto;
@@ -858,7 +889,7 @@ Proof.
       apply fire_shape in E. cbn [upd m_rep m_att m_conf m_created] in E.
       destruct E as (E1 & E2 & E3 & E4 & E5 & E6 & E7). constructor; cbn [rep_after]; auto.
       * right. exists false. repeat split; auto. discriminate.
-      * intros Hcr. destruct (E6 Hcr); auto. right; right. congruence.
+      * intros Hcr. destruct (E6 Hcr); auto. right. congruence.
       * intros h Hh. rewrite dones_app, dones_prog in Hh. apply E7 in Hh as (Hh1 & Hh2). discriminate Hh1.
     + destruct (c_await c && snonempty (m_conf m) && negb _ && sseteq _ _) eqn:Cnd; [|inversion H; subst; exact Plain].
       destruct (fire c _ true) as [s2 o2] eqn:E. inversion H; subst; clear H.
@@ -866,7 +897,7 @@ Proof.
       apply fire_shape in E. cbn [upd m_rep m_att m_conf m_created] in E.
       destruct E as (E1 & E2 & E3 & E4 & E5 & E6 & E7). constructor; cbn [rep_after]; auto.
       * right. exists true. rewrite E3. repeat split; auto.
-      * intros Hcr. destruct (E6 Hcr); auto. right; right. congruence.
+      * intros Hcr. destruct (E6 Hcr); auto. right. congruence.
       * intros h Hh. rewrite dones_app, dones_prog in Hh. apply E7 in Hh as (Hh1 & Hh2). split; congruence.
 Qed.
 
@@ -879,13 +910,13 @@ Proof.
     + destruct (m_fired m) as [o|] eqn:Hf.
       * destruct (m_upl_done m).
         -- intros H; inversion H; subst; constructor; cbn; rewrite ?R, ?Hf; auto.
-           ++ intros _. right; right. discriminate.
+           ++ intros _. right. discriminate.
            ++ intros h [Hh|[]]. inversion Hh. apply res_of_ok in H1. subst. auto.
         -- destruct (m_unsub_pending m).
            ++ destruct (finish_wait c (set_mrep m true) o) as [s2 o2] eqn:E. intros H; inversion H; subst; clear H.
               apply finish_wait_shape in E. cbn in E. destruct E as (E1 & E2 & E3 & E4 & E5 & E6 & E7).
               constructor; cbn; rewrite ?R; auto.
-              ** intros _. right; right. congruence.
+              ** intros _. right. congruence.
               ** intros h Hh. fold (dones o2) in Hh.
                  apply E7 in Hh as (Hh & _). symmetry in Hh. apply res_of_ok in Hh. subst. split; congruence.
            ++ intros H; inversion H; subst; constructor; cbn; rewrite ?R, ?Hf; auto; tauto.
@@ -893,45 +924,33 @@ Proof.
   - (* Reject *)
     destruct (m_rep m) eqn:R.
     + intros H; inversion H; subst; constructor; cbn; rewrite ?R; auto; tauto.
-    + destruct (m_unsub_pending m); [destruct (m_fired m) as [o|] eqn:Hf|].
-      * destruct (finish_wait c (set_created (set_mrep m false)) o) as [s2 o2] eqn:E. intros H; inversion H; subst; clear H.
-        apply finish_wait_shape in E. cbn in E. destruct E as (E1 & E2 & E3 & E4 & E5 & E6 & E7).
-        constructor; cbn; rewrite ?R; auto.
-        intros h [Hh|Hh]; [discriminate|]. fold (dones o2) in Hh. apply E7 in Hh as (_ & Hh). discriminate.
-      * intros H; inversion H; subst; constructor; cbn; rewrite ?R, ?Hf; auto. intros h [Hh|[]]. discriminate.
-      * intros H; inversion H; subst; constructor; cbn; rewrite ?R; auto. intros h [Hh|[]]. discriminate.
+    + destruct (m_fired m) as [o|] eqn:Hf; [destruct (m_unsub_pending m)|destruct (c_shared c)];
+        intros H; inversion H; subst; constructor; cbn; rewrite ?R, ?Hf; auto;
+        try (intros _; right; discriminate);
+        try (right; exists false; repeat split; auto; discriminate);
+        try (intros h Hh; repeat (destruct Hh as [Hh|Hh]; [discriminate|]); destruct Hh).
 Qed.
 
-(* ---- "afterwards the subscription is removed": every history without a rejection ---- *)
+(* ---- "afterwards the subscription is removed": EVERY history (rejections included since fix 3df3186) ---- *)
 Definition U (m : st) : Prop :=
   (m_fired m <> None -> m_listen m = false) /\ (m_created m = true -> m_fired m <> None).
 
-Lemma U_step c m o m' evs : step c m o = (m', evs) -> o <> Reject -> U m -> U m'.
+Lemma U_step c m o m' evs : step c m o = (m', evs) -> U m -> U m'.
 Proof.
-  intros H Ho (U1 & U2). apply step_shape in H. destruct H as [_ _ _ Hl Hfi Hcr _]. split.
+  intros H (U1 & U2). apply step_shape in H. destruct H as [_ _ _ Hl Hfi Hcr _]. split.
   - intros Hn. destruct Hfi as [Hfi|(b & Hb & Hl' & _)]; [|exact Hl'].
     rewrite Hfi in Hn. destruct Hl as [Hl|Hl]; [rewrite Hl; auto | exact Hl].
-  - intros Hc. destruct (Hcr Hc) as [H|[H|H]]; [|contradiction|exact H].
+  - intros Hc. destruct (Hcr Hc) as [H|H]; [|exact H].
     destruct Hfi as [Hfi|(b & Hb & _)]; [rewrite Hfi; auto | congruence].
 Qed.
 
-Fixpoint no_reject (ops : list op) : bool :=
-  match ops with [] => true | Reject :: _ => false | _ :: r => no_reject r end.
-
-Lemma create_rejected_no_reject c ops : forall s, any_bad c bad_f s ops = false -> no_reject ops = true.
-Proof.
-  induction ops as [|o ops IH]; intros s H; [reflexivity|]. cbn [any_bad] in H.
-  apply orb_false_iff in H as [H1 H2]. destruct o; cbn in *; try discriminate; eauto.
-Qed.
-
 Lemma run_from_unsub c ops : forall m done,
-  U m -> J m -> (done = true -> m_created m = true) -> no_reject ops = true ->
+  U m -> J m -> (done = true -> m_created m = true) ->
   unsub_all c done (run_from c m ops) = true.
 Proof.
-  induction ops as [|o ops IH]; intros m done HU HJ Hd Hn; [reflexivity|].
+  induction ops as [|o ops IH]; intros m done HU HJ Hd; [reflexivity|].
   cbn [run_from]. destruct (step c m o) as [m' evs] eqn:E.
-  assert (Ho : o <> Reject) by (intros ->; discriminate).
-  pose proof (U_step _ _ _ _ _ E Ho HU) as HU'. destruct (step_once _ _ _ _ _ E HJ) as (HJ' & Hcnt).
+  pose proof (U_step _ _ _ _ _ E HU) as HU'. destruct (step_once _ _ _ _ _ E HJ) as (HJ' & Hcnt).
   cbn [unsub_all snap r_evs].
   set (done' := done || negb (is_nil (dones evs))).
   assert (Hd' : done' = true -> m_created m' = true).
@@ -941,24 +960,19 @@ Proof.
   apply andb_true_iff. split.
   - unfold unsub_ok, snap. cbn [r_ncb r_inev]. destruct done' eqn:D; [|reflexivity]. cbn [negb orb].
     destruct HU' as (U1 & U2). rewrite (U1 (U2 (Hd' eq_refl))). cbn. destruct (c_shared c); reflexivity.
-  - apply IH; auto. destruct o; cbn in Hn; auto; discriminate.
+  - apply IH; auto.
 Qed.
 
-Lemma run_unsubscribes c ops : create_rejected c ops = false -> unsub_all c false (run c ops) = true.
+Lemma run_unsubscribes c ops : unsub_all c false (run c ops) = true.
 Proof.
-  intros H. unfold run. cbn [unsub_all]. unfold start_rec, snap. cbn [r_evs].
+  unfold run. cbn [unsub_all]. unfold start_rec, snap. cbn [r_evs].
   replace (dones (if c_shared c then [OCreateCmd true] else [OSetEvents true; OCreateCmd true])) with (@nil result)
     by (destruct (c_shared c); reflexivity).
   cbn [is_nil negb orb unsub_ok andb]. apply run_from_unsub.
   - split; cbn; [intros H0; now exfalso | discriminate].
   - unfold J. cbn. discriminate.
   - discriminate.
-  - eapply create_rejected_no_reject. exact H.
 Qed.
-
-Lemma rejected_keeps_listener_unsub_refuted :
-  exists c ops, wf ops = true /\ unsub_all c false (run c ops) = false.
-Proof. exists (cfg0 false), [Reject]. vm_compute. auto. Qed.
 
 (* ---- events of other services are inert: every history outside finding C15-F1 ---- *)
 Lemma foreign_noop c m k a d :
